@@ -46,6 +46,10 @@ Definition t_abstract t := match t with Table _ b _ _ => b end.
 Definition t_inh t := match t with Table _ _ i _ => i end.
 Definition t_items t := match t with Table _ _ _ l => l end.
 
+(* a workspace descriptor holds plain fields and reference fields *)
+Inductive ditem := DField (f : field) | DRef (n : ident) (refs : list qref) (nn : bool).
+Definition d_name (d : ditem) : ident := match d with DField f => f_name f | DRef n _ _ => n end.
+
 Inductive yitem := YField (f : field) | YCont (n : ident) (ty : qref) (nn : bool).
 
 Inductive vitem := VField (n : ident) (ty : dtype) (nn : bool) | VRef (n : ident) (refs : list qref) (nn : bool).
@@ -85,7 +89,7 @@ Inductive wsitem :=
   | IFunc (f : func) | IRole (n : ident) (published : bool) | IRate (r : rate) | ILimit (l : limit)
   | IGrant (g : grant) | IUse (n : ident).
 
-Record ws := Ws { w_name : ident; w_abstract : bool; w_inh : list qref; w_desc : option (list field); w_items : list wsitem }.
+Record ws := Ws { w_name : ident; w_abstract : bool; w_inh : list qref; w_desc : option (list ditem); w_items : list wsitem }.
 Record pkg := Pkg { p_name : ident; p_files : list (list ws) }.
 Definition p_wss (p : pkg) : list ws := List.concat (p_files p).
 Definition schema := list pkg.     (* head = the application package *)
@@ -235,7 +239,7 @@ Definition nl : string := String (ascii_of_nat 10) EmptyString.
 Definition r_ws (w : ws) : string :=
   (if w_abstract w then "ABSTRACT " else "") ++ "WORKSPACE " ++ w_name w
   ++ match w_inh w with [] => "" | l => " INHERITS " ++ sep ", " (map r_qref l) end ++ " (" ++ nl
-  ++ match w_desc w with Some fs => "  DESCRIPTOR " ++ r_paren (map r_field fs) ++ ";" ++ nl | None => "" end
+  ++ match w_desc w with Some fs => "  DESCRIPTOR " ++ r_paren (map (fun d => match d with DField f => r_field f | DRef fn refs nn => fn ++ " " ++ r_refs refs ++ r_nn nn end) fs) ++ ";" ++ nl | None => "" end
   ++ sep "" (map (fun i => "  " ++ r_wsitem i ++ ";" ++ nl) (w_items w))
   ++ ");" ++ nl.
 
@@ -293,14 +297,22 @@ Definition item_key (i : item) : qname :=
    - are unnamed UNIQUE constraints numbered over the whole type (or per item list: finding F23),
    - does a nested table that INHERITS get the inherited members (or only its own: F24),
    - do view reference fields keep their targets (or lose them: F25),
-   - is the ACL block of an inherited workspace applied again for every heir.
-   `Ideal` is the spec; `Go` is the compiler as it is: the first three flags are read off the source
-   by translator/parts/c17.py (Gen/Params.v), the repetition is how grantsAndRevokes works;
-   `GoBefore` is the compiler before the three repairs (kept for the conditional refutations). *)
-Record mode := Mode { m_uniq_per_type : bool; m_nested_inherit : bool; m_view_refs : bool; m_acl_repeat : bool }.
-Definition Ideal : mode := Mode true true true false.
-Definition Go : mode := Mode parser_uniques_numbered_per_type parser_nested_tables_inherit parser_view_refs_recorded true.
-Definition GoBefore : mode := Mode false false false true.
+   - is the ACL block of an inherited workspace applied again for every heir (finding F28),
+   - is a name of package P matched only against statements of package P (or against anything of that
+     name in the current workspace: finding F26),
+   - is an INHERITS list resolved in the package that wrote it (or in the package of whoever walks the
+     chain: finding F27),
+   - do the reference fields of a workspace descriptor keep their targets (or lose them, unchecked: F29).
+   `Ideal` is the spec; `Go` is the compiler as it is: every flag is read off the source by
+   translator/parts/c17.py (Gen/Params.v); `GoBefore` is the compiler before all the repairs (kept for
+   the conditional refutations). *)
+Record mode := Mode { m_uniq_per_type : bool; m_nested_inherit : bool; m_view_refs : bool; m_acl_repeat : bool;
+                      m_res_pkg : bool; m_res_inh : bool; m_desc_refs : bool }.
+Definition Ideal : mode := Mode true true true false true true true.
+Definition Go : mode := Mode parser_uniques_numbered_per_type parser_nested_tables_inherit parser_view_refs_recorded
+                             (negb parser_inherited_grants_once) parser_lookup_respects_package parser_inherits_in_own_package
+                             parser_descriptor_refs_analysed.
+Definition GoBefore : mode := Mode false false false true false false false.
 
 Record pchecks := PChecks { ck_view_pk : bool; ck_grant_class : bool }.
 
@@ -398,9 +410,14 @@ Definition struct_item (m : mode) (pn : ident) (wq : qname) (t : table) (k : tki
            (sys_fields k +++ flat_map fields_of ls) (flat_map conts_of ls) (uniqs_chain m ls).
 
 Definition desc_name (w : ws) : ident := w_name w ++ "Descriptor".
-Definition desc_item (pn : ident) (w : ws) : item :=
+Definition fd_of_ditem (keep : bool) (pn : ident) (d : ditem) : fdef :=
+  match d with
+  | DField f => fd_of_field f
+  | DRef n refs nn => fd_ref pn n (if keep then refs else []) nn
+  end.
+Definition desc_item (m : mode) (pn : ident) (w : ws) : item :=
   ItStruct (pn, desc_name w) KCDoc (pn, w_name w) false true
-           (sys_fields KCDoc +++ map fd_of_field (match w_desc w with Some l => l | None => [] end)) [] [].
+           (sys_fields KCDoc +++ map (fd_of_ditem (m_desc_refs m) pn) (match w_desc w with Some l => l | None => [] end)) [] [].
 
 Definition type_item (pn : ident) (wq : qname) (n : ident) (ys : list yitem) : item :=
   ItStruct (pn, n) KObject wq false false
@@ -650,7 +667,7 @@ Definition stmt_items (m : mode) (pn : ident) (wq : qname) (i : wsitem) : list i
 
 Definition ws_items (m : mode) (p : pkg) (w : ws) : list item :=
   ws_item m p w
-  :: (if w_abstract w then [] else [desc_item (p_name p) w])
+  :: (if w_abstract w then [] else [desc_item m (p_name p) w])
   +++ flat_map (stmt_items m (p_name p) (p_name p, w_name w)) (w_items w).
 
 Definition compile_items (m : mode) : list item := flat_map (fun pw => ws_items m (fst pw) (snd pw)) all_ws.
@@ -751,10 +768,7 @@ Definition inh_ok (p : pkg) (w : ws) (t : table) : bool :=
   match t_inh t with
   | None => false
   | Some q => let r := resolve (p_name p) q in
-              (* the chain of a table is re-resolved in the package of whoever looks at the table
-                 (heirs, projectors): only package-qualified names mean the same everywhere *)
-              negb (qr_pkg q =? "")
-              && if fst r =? "sys" then match sysbase_of (snd r) with Some _ => true | None => false end
+              if fst r =? "sys" then match sysbase_of (snd r) with Some _ => true | None => false end
                  else in_scope p w s_abstract_roots r
   end.
 Definition chain_lists_ok (pn : ident) (ls : list ilist) : bool :=
@@ -912,6 +926,16 @@ Definition stmt_ok (p : pkg) (w : ws) (i : wsitem) : bool :=
   | IUse n => match lookup_ws (p_name p, n) with Some (_, w') => negb (w_abstract w') | None => false end
   end.
 
+(* a descriptor is a CDoc: plain fields as in a table, reference targets concrete tables in scope that a
+   CDoc may refer to *)
+Definition ditem_ok (p : pkg) (w : ws) (d : ditem) : bool :=
+  match d with
+  | DField f => field_ok true f
+  | DRef _ refs _ => forallb (fun r => let q := resolve (p_name p) r in
+                                       in_scope p w s_concrete_tables q
+                                       && match kind_in_scope p w q with Some k' => ref_allowed KCDoc k' | None => false end) refs
+  end.
+
 Fixpoint pkgs_after (l : schema) (n : ident) : list ident :=
   match l with [] => [] | p :: r => if p_name p =? n then map p_name r else pkgs_after r n end.
 
@@ -919,9 +943,6 @@ Definition ws_ok (p : pkg) (w : ws) : bool :=
   (* INHERITS: abstract workspaces of this or a later (imported) package, acyclic *)
   match ws_anc fuelw (p_name p) (w_inh w) with Some _ => true | None => false end
   && forallb (fun q => let r := resolve (p_name p) q in (fst r =? p_name p) || mem_s (fst r) (pkgs_after a (p_name p))) (w_inh w)
-  (* the INHERITS list of a workspace is re-resolved in the package of every workspace that
-     inherits it: only package-qualified names mean the same everywhere *)
-  && forallb (fun q => negb (qr_pkg q =? "")) (w_inh w)
   && forallb (fun q => match lookup_ws (resolve (p_name p) q) with Some (_, w') => w_abstract w' | None => false end) (w_inh w)
   (* checkChain keeps every INHERITS reference it has walked below one direct ancestor and calls a
      second visit "circular": below each direct ancestor no workspace that itself INHERITS may be
@@ -933,7 +954,7 @@ Definition ws_ok (p : pkg) (w : ws) : bool :=
                        | None => false
                        end) (w_inh w)
   && (negb (w_abstract w) || match w_desc w with None => true | Some _ => false end)
-  && match w_desc w with Some fs => forallb (field_ok true) fs && nodup_b String.eqb (map f_name fs) | None => true end
+  && match w_desc w with Some fs => forallb (ditem_ok p w) fs && nodup_b String.eqb (map d_name fs) | None => true end
   && grants_before_revokes false (w_items w)
   && forallb (stmt_ok p w) (w_items w).
 
@@ -948,9 +969,6 @@ Definition wf : bool :=
   negb (match a with [] => true | _ => false end)
   && nodup_b String.eqb (map p_name a) && negb (mem_s "sys" (map p_name a))
   && nodup_b qname_eqb (map item_key (compile_items Ideal))
-  (* a qualified name is looked up in the current workspace first, whatever its package: entity
-     names are kept distinct over the whole application *)
-  && nodup_b String.eqb (map (fun i => snd (item_key i)) (compile_items Ideal))
   && no_unique_collision Ideal
   && forallb (fun pw => ws_ok (fst pw) (snd pw)) all_ws.
 
@@ -1018,9 +1036,6 @@ Definition ws_ok_p (ck : pchecks) (p : pkg) (w : ws) : bool :=
   (* INHERITS: abstract workspaces of this or a later (imported) package, acyclic *)
   match ws_anc fuelw (p_name p) (w_inh w) with Some _ => true | None => false end
   && forallb (fun q => let r := resolve (p_name p) q in (fst r =? p_name p) || mem_s (fst r) (pkgs_after a (p_name p))) (w_inh w)
-  (* the INHERITS list of a workspace is re-resolved in the package of every workspace that
-     inherits it: only package-qualified names mean the same everywhere *)
-  && forallb (fun q => negb (qr_pkg q =? "")) (w_inh w)
   && forallb (fun q => match lookup_ws (resolve (p_name p) q) with Some (_, w') => w_abstract w' | None => false end) (w_inh w)
   (* checkChain keeps every INHERITS reference it has walked below one direct ancestor and calls a
      second visit "circular": below each direct ancestor no workspace that itself INHERITS may be
@@ -1032,7 +1047,7 @@ Definition ws_ok_p (ck : pchecks) (p : pkg) (w : ws) : bool :=
                        | None => false
                        end) (w_inh w)
   && (negb (w_abstract w) || match w_desc w with None => true | Some _ => false end)
-  && match w_desc w with Some fs => forallb (field_ok true) fs && nodup_b String.eqb (map f_name fs) | None => true end
+  && match w_desc w with Some fs => forallb (ditem_ok p w) fs && nodup_b String.eqb (map d_name fs) | None => true end
   && grants_before_revokes false (w_items w)
   && forallb (stmt_ok_p ck p w) (w_items w).
 
@@ -1041,9 +1056,6 @@ Definition wf_p (ck : pchecks) : bool :=
   negb (match a with [] => true | _ => false end)
   && nodup_b String.eqb (map p_name a) && negb (mem_s "sys" (map p_name a))
   && nodup_b qname_eqb (map item_key (compile_items Ideal))
-  (* a qualified name is looked up in the current workspace first, whatever its package: entity
-     names are kept distinct over the whole application *)
-  && nodup_b String.eqb (map (fun i => snd (item_key i)) (compile_items Ideal))
   && no_unique_collision Ideal
   && forallb (fun pw => ws_ok_p ck (fst pw) (snd pw)) all_ws.
 
@@ -1061,8 +1073,40 @@ Definition no_view_ref_targets : bool :=
                                        | IView v => forallb (fun x => match x with VRef _ (_ :: _) _ => false | _ => true end) (v_items v)
                                        | _ => true end) (w_items (snd pw))) all_ws.
 
-(* a compiler of mode m accepts the well-formed schemas on which its builder does not panic *)
-Definition accepts (m : mode) : bool := wf && no_unique_collision m.
+(* Two shapes on which a compiler that resolves names the old way goes wrong (it refuses the schema or
+   compiles something else), findings F26 and F27:
+   - an entity name used in two packages: a qualified name `p.X` was looked up in the statements of the
+     current workspace first and matched an `X` of any package;
+   - an INHERITS without package: the INHERITS lists of workspaces and tables were re-resolved in the
+     package of whoever walks the chain (heirs, projectors), where an unqualified name means something else *)
+Definition names_distinct : bool := nodup_b String.eqb (map (fun i => snd (item_key i)) (compile_items Ideal)).
+Definition inh_qualified (t : table) : bool := match t_inh t with Some q => negb (qr_pkg q =? "") | None => true end.
+Definition inherits_qualified : bool :=
+  forallb (fun pw => forallb (fun q => negb (qr_pkg q =? "")) (w_inh (snd pw))
+                     && forallb inh_qualified (all_tables_ws (snd pw))) all_ws.
+Definition resolves_like_spec (m : mode) : bool := (m_res_pkg m || names_distinct) && (m_res_inh m || inherits_qualified).
+
+(* no workspace that is inherited holds grants or revokes (the shape finding F28 was about) *)
+Definition no_inherited_acl : bool :=
+  forallb (fun pw => match acl_block (p_name (fst pw)) (snd pw) with
+                     | [] => true
+                     | _ => Nat.eqb (count_q (p_name (fst pw), w_name (snd pw)) (flat_map (fun pw' => anc_list (fst pw') (snd pw')) all_ws)) 0
+                     end) all_ws.
+
+(* descriptor reference fields with targets (the shape finding F29 was about) *)
+Definition no_desc_ref_targets : bool :=
+  forallb (fun pw => match w_desc (snd pw) with
+                     | Some fs => forallb (fun d => match d with DRef _ (_ :: _) _ => false | _ => true end) fs
+                     | None => true end) all_ws.
+
+(* a compiler of mode m accepts the well-formed schemas on which its builder does not panic; what a
+   compiler with the old name resolution does on the two shapes above is not modelled (None here, and
+   `agrees` abstains there: `go_abstains`) *)
+Definition accepts (m : mode) : bool := wf && no_unique_collision m && resolves_like_spec m.
+(* a compiler that skips the descriptor's reference fields accepts any target, declared or not: not
+   modelled either *)
+Definition go_abstains : bool :=
+  (wf && negb (resolves_like_spec Go)) || (negb (m_desc_refs Go) && negb no_desc_ref_targets).
 Definition compile (m : mode) : option (list item) :=
   if accepts m then Some (compile_items m) else None.
 
@@ -1104,7 +1148,7 @@ Inductive Declares : item -> Prop :=
                      (if w_abstract w then None else Some (p_name p, desc_name w))
                      (flat_map (fun i => match i with IUse n => [(p_name p, n)] | _ => [] end) (w_items w))
                      (acl_block (p_name p) w))
-  | D_desc p w : In_ws p w -> w_abstract w = false -> Declares (desc_item (p_name p) w)
+  | D_desc p w : In_ws p w -> w_abstract w = false -> Declares (desc_item Ideal (p_name p) w)
   | D_table p w t b ls :
       In_ws p w -> In (ITable t) (w_items w) -> Chain (p_name p) t b ls ->
       Declares (struct_item Ideal (p_name p) (p_name p, w_name w) t (base_kind b) (base_single b) ls)
@@ -1233,21 +1277,23 @@ Definition texts_eqb (x y : list (string * list string)) : bool :=
 (* the implementation model predicts everything the harness observed *)
 Definition agrees (t : trace) : bool :=
   texts_eqb (render (tr_ast t)) (tr_texts t)
-  && match compile (tr_ast t) Go, tr_out t with
+  && (go_abstains (tr_ast t) ||
+     match compile (tr_ast t) Go, tr_out t with
      | Some d, Compiled obs sys_unchanged deterministic => dump_match acl_eqb d obs && sys_unchanged && deterministic
      | None, Rejected _ =>
        (* the model predicts the refusal, not whether the compiler reports an error or panics (the
           builder's panics are recovered in buildAppDefs since 2c1d463a7; C16 observes panics) *)
        true
      | _, _ => false
-     end.
+     end).
 
 (* the property, judged on the observed output only: a well-formed schema compiles, and the compiled
    definition holds exactly the declared items (`compile Ideal`, equivalent to `Declares`), twice the
-   same, with package sys untouched; what is not well-formed is not judged *)
+   same, with package sys untouched (ACLs compared operation by operation, rule for rule: a declared rule
+   appears once); what is not well-formed is not judged *)
 Definition satisfies (t : trace) : bool :=
   match compile (tr_ast t) Ideal, tr_out t with
-  | Some d, Compiled obs sys_unchanged deterministic => dump_match acl_power d obs && sys_unchanged && deterministic
+  | Some d, Compiled obs sys_unchanged deterministic => dump_match acl_eqb d obs && sys_unchanged && deterministic
   | Some _, Rejected _ => false
   | None, _ => true
   end.
